@@ -101,6 +101,19 @@ pub fn history(env: &Env, rep: &mut Report, t: &mut Trace, lay: &Layouts, rng: &
             let o = s.key(t, k.1, m, selv as u8);
             if phon { if let Some(c) = k.2 { typed.push(c); } }
             let on = s.imp.ongoing();
+            // fixed method, first key of a word: the composition can only be what THIS key composes — which is what a brand-new
+            // context shows for the same key (the harness has no other model-free notion of the fixed composition)
+            if !phon && !ongoing_before && o != Obs::Panic {
+                if let Some(mut f) = Imp::new(&mk_config(&layout, &opts, &xdg)) {
+                    let of = f.key(k.1, m, 0);
+                    let comp = |x: &Obs| match x { Obs::Full { aux, .. } => Some(aux.clone()), Obs::Single { text, .. } => Some(text.clone()), _ => None };
+                    if let (Some(a), Some(b)) = (comp(&o), comp(&of)) { if a != b {
+                        rep.violation("C02", "auxiliary-not-composition", format!("fixed: first key of a word in a used context shows the composition {:?}, a brand-new context shows {:?}", a, b), ctx(&s, "first key of a word"));
+                        rep.violation("C06", "leak-into-next-word", format!("fixed: first key of a word in a used context shows {:?}, a brand-new context {:?}", a, b), ctx(&s, "first key of a word"));
+                    } }
+                    rep.count("first-key-vs-new-context");
+                }
+            }
             let ov = if phon && k.2.map(|c| ".?!,:;-_)}]'\"".contains(c)).unwrap_or(false) { Some(selv) } else { None };
             check_obs(rep, &ctx(&s, "key"), phon, if phon && !typed.is_empty() { Some(&typed) } else { None }, &o, on, true, ov);
             if let Obs::Full { cands, sel, .. } = &o { last_len = cands.len(); last_sel = *sel; } else { last_len = 0; last_sel = 0; }
@@ -177,6 +190,11 @@ fn systematic(env: &Env, rep: &mut Report, t: &mut Trace, lay: &Layouts, shard: 
             let xdg = env.fresh_xdg(&case);
             t.line(&format!("case {}", case));
             let mut s = match Sess::new(t, &env.data, "c", layout, opts, &xdg) { Some(s) => s, None => continue };
+            // what a brand-new context composes for the probe key (fixed layouts)
+            let probe_key = code_for_char('k').unwrap();
+            let comp = |x: &Obs| match x { Obs::Full { aux, .. } => Some(aux.clone()), Obs::Single { text, .. } => Some(text.clone()), _ => None };
+            let ref_text = if phon { None } else { Imp::new(&mk_config(layout, &opts, &xdg)).and_then(|mut f| comp(&f.key(probe_key, 0, 0))) };
+            let mut nth = 0usize;
             {
                 for k in KEYS {
                     for m in [0u8, 1, 2, 3] {
@@ -190,7 +208,27 @@ fn systematic(env: &Env, rep: &mut Report, t: &mut Trace, lay: &Layouts, shard: 
                             // a poisoned context cannot be used further
                             t.line(&format!("drop {}", s.id));
                             s = match Sess::new(t, &env.data, "c", layout, opts, &xdg) { Some(s) => s, None => return };
-                        } else { s.finish(t); }
+                        } else {
+                            // the word ends in one of the ways a word can end; whatever the key did (a sign left waiting, raw keys without a
+                            // value …), the next word starts clean: its first key shows what a brand-new context shows for that key
+                            nth += 1;
+                            let was_on = s.imp.ongoing();
+                            let ot = match nth % 4 { 0 => s.finish(t), 1 => s.backspace(t, true), 2 => { if was_on { s.commit(t, 0) } else { s.finish(t) } } _ => { let mut x = Obs::Unit; for _ in 0..(sd.len() + 3) { if !s.imp.ongoing() { break; } x = s.backspace(t, false); if x == Obs::Panic { break; } } if s.imp.ongoing() { x = s.finish(t); } x } };
+                            if ot == Obs::Panic { rep.violation("C01", "panic", "the event that ends the word panicked".into(), json!({"stream": "c01", "case": case, "layout": layout, "opts": opts.bits_str(), "events": s.events})); t.line(&format!("drop {}", s.id)); s = match Sess::new(t, &env.data, "c", layout, opts, &xdg) { Some(s) => s, None => return }; s.clear_events(); continue; }
+                            if s.imp.ongoing() { rep.violation("C06", "session-after-terminating-event", format!("ongoing after the word ended (way {})", nth % 4), json!({"stream": "c01", "case": case, "layout": layout, "opts": opts.bits_str(), "events": s.events})); }
+                            if !phon {
+                                let o2 = s.key(t, probe_key, 0, 0);
+                                let got = comp(&o2);
+                                if got != ref_text && o2 != Obs::Panic {
+                                    let ctx2 = json!({"stream": "c01", "case": case, "layout": layout, "opts": opts.bits_str(), "events": s.events});
+                                    rep.violation("C02", "auxiliary-not-composition", format!("fixed: the first key of the next word shows the composition {:?}, a brand-new context shows {:?}", got, ref_text), ctx2.clone());
+                                    rep.violation("C06", "leak-into-next-word", format!("fixed: the first key of the next word shows {:?}, a brand-new context {:?}", got, ref_text), ctx2);
+                                }
+                                if o2 == Obs::Panic { rep.violation("C01", "panic", "first key of the next word panicked".into(), json!({"stream": "c01", "case": case, "layout": layout, "opts": opts.bits_str(), "events": s.events})); t.line(&format!("drop {}", s.id)); s = match Sess::new(t, &env.data, "c", layout, opts, &xdg) { Some(s) => s, None => return }; }
+                                else { s.finish(t); }
+                                rep.count("next-word-first-key");
+                            }
+                        }
                         s.clear_events();
                         rep.count("systematic-key");
                     }
@@ -253,6 +291,43 @@ fn run_corpus(env: &Env, rep: &mut Report, t: &mut Trace, lay: &Layouts) {
         }
         rep.eval(Some(&case));
         rep.count("corpus-case");
+    }
+}
+
+/// learned choices of EVERY kind of candidate: a text is typed, candidate i is committed (for every i: the dictionary word, the
+/// transliteration, an emoji, the raw English text, a smart-quoted form …), then the same text is typed again, then the text with a suffix,
+/// with a backspace in between: whatever was learned, and whether or not it is in the list being built, every call returns normally
+fn learn_retype_pass(env: &Env, rep: &mut Report, t: &mut Trace, si: usize, nshards: usize) {
+    let texts = ["\"e\"", "'kor'", "smile", "cool", "(ami)", "sesh.", "e", "a", "kor", ";)", "x)", "atm", "12", "k`", "desh:", "\"smile\"", "boi", "o"];
+    let mut n = 0usize;
+    for (ti, txt) in texts.iter().enumerate() {
+        for idx in 0..6usize {
+            n += 1; if n % nshards != si { continue; }
+            let case = format!("c01-learn-{}-{}", ti, idx);
+            t.line(&format!("case {}", case));
+            let xdg = env.fresh_xdg(&case);
+            let mut o = Opts::none(); o.phonetic_suggestion = true; o.english = (ti + idx) % 2 == 0; o.smart_quote = (ti + idx) % 3 != 0;
+            let mut s = match Sess::new(t, &env.data, "lr", PHONETIC, o, &xdg) { Some(s) => s, None => continue };
+            let ctx = |s: &Sess, at: &str| json!({"stream": "c01", "case": case, "layout": PHONETIC, "opts": o.bits_str(), "events": s.events, "at": at});
+            let ob = s.type_text(t, txt);
+            let len = match &ob { Obs::Full { cands, .. } => cands.len(), Obs::Panic => { rep.violation("C01", "panic", format!("typing {:?} panicked", txt), ctx(&s, "type")); continue; } _ => 0 };
+            if idx >= len { s.finish(t); t.line("drop lr"); continue; }
+            if s.commit(t, idx) == Obs::Panic { rep.violation("C01", "panic", format!("committing candidate {} of {:?} panicked", idx, txt), ctx(&s, "commit")); continue; }
+            let (_, w, _) = split(txt, false);
+            let mut dead = false;
+            for again in [txt.to_string(), format!("{}r", w), format!("{}er", txt.trim_end_matches(|c: char| !c.is_ascii_alphanumeric())), format!("{}gulo", w), w.clone()] {
+                if again.is_empty() || !again.chars().all(crate::code_ok) { continue; }
+                let ob = s.type_text(t, &again);
+                rep.eval(Some(&format!("learn|{}|{}|{}", txt, idx, again))); rep.count("learned-then-retyped");
+                if ob == Obs::Panic { rep.violation("C01", "panic", format!("after candidate {} of {:?} was learned, typing {:?} panicked", idx, txt, again), ctx(&s, "retype")); dead = true; break; }
+                if s.backspace(t, false) == Obs::Panic { rep.violation("C01", "panic", format!("after candidate {} of {:?} was learned, a backspace on {:?} panicked", idx, txt, again), ctx(&s, "backspace")); dead = true; break; }
+                let on = s.imp.ongoing();
+                if let Obs::Full { .. } = &s.last { check_obs(rep, &ctx(&s, "after backspace"), true, None, &s.last.clone(), on, true, None); }
+                s.finish(t);
+            }
+            let _ = dead;
+            t.line("drop lr");
+        }
     }
 }
 
@@ -337,6 +412,7 @@ pub fn run(env: &Env) -> Report {
         systematic(env, &mut rep, &mut t, &lay, si, nshards, if env.quick() { 6 } else { 32 }, seed);
         data_words(env, &mut rep, &mut t, si, nshards);
         selection_pass(env, &mut rep, &mut t, si, nshards);
+        learn_retype_pass(env, &mut rep, &mut t, si, nshards);
         if !env.quick() && si == 0 {
             // long-word soak (thorough tier: ~2 minutes): one uncommitted word of 3000 characters over worst-case okkhor patterns
             let xdg = env.fresh_xdg("soak");
